@@ -425,7 +425,8 @@ def run_instance(harness, name, params, *, known=(), opts=None, pinned=None):
                 res["inconclusive"].append(f"counterexample vanished for {lab}")
                 continue
             vals, model, exact = got
-            exp, _ = eval_leaf(model, obs)
+            exp, uf_free = eval_leaf(model, obs)
+            exact = exact and uf_free
             n_same = len([v for v in res["violations"] if v["label"] == lab])
             res["n_violating_paths"] = res.get("n_violating_paths", 0) + 1
             if n_same < opts.get("max_violations_per_label", 2):
